@@ -24,7 +24,9 @@ EXTENDS Integers, Sequences, SequencesExt, FiniteSets, TLC, Json, IOUtils, Bitwi
 
 CONSTANTS MaxLen,      \* all byte strings of length 0..MaxLen are enumerated
           Shard, NShards,   \* this run takes the strings whose first byte b has b % NShards = Shard (empty string: shard 0)
-          DivMax       \* file cases up to this length are also computed by long division
+          DivMax,      \* file cases up to this length are also computed by long division
+          LemmaStep    \* the invariants are evaluated on every LemmaStep-th enumerated two byte string (1 = all of them);
+                       \* the table always holds every string
 
 Byte == 0..255
 Zeros(k) == [i \in 1..k |-> 0]
@@ -115,23 +117,24 @@ Spec == Init /\ [][Next]_c
 Msg == c
 Enumerated == Len(Msg) <= MaxLen
 Short == Enumerated \/ Len(Msg) <= DivMax
+Lemma == ~Enumerated \/ Len(Msg) <= 1 \/ (Msg[1] + 7 * Msg[2]) % LemmaStep = 0
 
 \* ---- properties ----
 \* the table driven recurrence computes the polynomial division
-DivIsTab16 == Short => CrcDiv(GENIBUS, Msg) = Crc16(Msg)
-DivIsTab64 == Short => CrcDiv(WE, Msg) = Crc64(Msg)
+DivIsTab16 == (Lemma /\ Short) => CrcDiv(GENIBUS, Msg) = Crc16(Msg)
+DivIsTab64 == (Lemma /\ Short) => CrcDiv(WE, Msg) = Crc64(Msg)
 InRange == Crc16(Msg)[1] \in 0..65535 /\ \A i \in 1..4 : Crc64(Msg)[i] \in 0..65535
 \* a codeword (message followed by its big endian checksum) leaves the constant residue
-Codeword16 == XorLimbs(Crc16(Msg \o LimbBytes(Crc16(Msg))), GENIBUS.xorout) = Residue16
-Codeword64 == XorLimbs(Crc64(Msg \o LimbBytes(Crc64(Msg))), WE.xorout) = Residue64
+Codeword16 == Lemma => XorLimbs(Crc16(Msg \o LimbBytes(Crc16(Msg))), GENIBUS.xorout) = Residue16
+Codeword64 == Lemma => XorLimbs(Crc64(Msg \o LimbBytes(Crc64(Msg))), WE.xorout) = Residue64
 \* affine over GF(2): crc(a) + crc(b) + crc(0..0) = crc(a + b) for strings of one length
 Mask(n) == [i \in 1..n |-> (37 * i + 90) % 256]
 XorMsg(a, b) == [i \in DOMAIN a |-> a[i] ^^ b[i]]
-Affine16 == LET n == Len(Msg) IN XorLimbs(XorLimbs(Crc16(Msg), Crc16(Mask(n))), Crc16(Zeros(n))) = Crc16(XorMsg(Msg, Mask(n)))
-Affine64 == LET n == Len(Msg) IN XorLimbs(XorLimbs(Crc64(Msg), Crc64(Mask(n))), Crc64(Zeros(n))) = Crc64(XorMsg(Msg, Mask(n)))
+Affine16 == Lemma => LET n == Len(Msg) IN XorLimbs(XorLimbs(Crc16(Msg), Crc16(Mask(n))), Crc16(Zeros(n))) = Crc16(XorMsg(Msg, Mask(n)))
+Affine64 == Lemma => LET n == Len(Msg) IN XorLimbs(XorLimbs(Crc64(Msg), Crc64(Mask(n))), Crc64(Zeros(n))) = Crc64(XorMsg(Msg, Mask(n)))
 \* every single bit error is detected (checked on the enumerated strings)
 Flip(m, i, k) == [m EXCEPT ![i] = m[i] ^^ (2^k)]
-SingleBit == Enumerated => \A i \in DOMAIN Msg : \A k \in 0..7 :
+SingleBit == (Lemma /\ Enumerated) => \A i \in DOMAIN Msg : \A k \in 0..7 :
                  Crc16(Flip(Msg, i, k)) # Crc16(Msg) /\ Crc64(Flip(Msg, i, k)) # Crc64(Msg)
 
 ASSUME JsonSerialize(IOEnv.TABLE_OUT, Table)
